@@ -543,17 +543,364 @@ func (c *Ctx) funcxRun() map[string]*simpleVerdict {
 		}
 		expect("Date", longs(86400), "DateTime", "time.Unix(86400,0)", "Date(86400L) (a single argument is a Unix time)")
 	}
+	c.funcxInapplicable(names, note)
+	c.funcxExtremes(note)
 	return res
+}
+
+// ---- arguments of every type in every position ---------------------------------------------------------
+//
+// The statement: "a wrong argument count or an inapplicable argument yields an error - never a nil result
+// without error and never a silently substituted value". For every default function, every valid argument
+// count (up to four; all in the thorough tier) and every position, the argument is replaced by a value of
+// every variant type while the others hold a value of the type the function works on; under both
+// operations managers. The outcome must be exactly one of result / error. Where the statement names the
+// type the argument is converted to (the condition of If is a Boolean, the selector of Choose an Integer,
+// the host functions work "on the converted argument" - a Double -, Contains on Strings, DayOfWeek on a
+// DateTime), the manager itself is asked to convert the argument: what it refuses is inapplicable and the
+// function must answer with an error.
+
+// funcNeeds: the type the statement has the argument converted to ("" = any value will do).
+func funcNeeds(name string, pos int) string {
+	switch name {
+	case "If", "Choose":
+		if pos == 0 {
+			return map[string]string{"If": "Boolean", "Choose": "Integer"}[name]
+		}
+		return ""
+	case "Contains":
+		return "String"
+	case "DayOfWeek":
+		return "DateTime"
+	}
+	if spec, ok := funcChainOracle[name]; ok && strings.Contains(spec, "getParameter($1, 0), Double)") {
+		return "Double"
+	}
+	return ""
+}
+
+func (c *Ctx) funcxInapplicable(names []string, note func(k, bad, undec string)) {
+	type argKind struct {
+		typ     string
+		payload interface{}
+		text    string
+	}
+	pool := []argKind{{"Null", nil, "null"}, {"String", lit("abc"), `"abc"`}, {"Boolean", true, "true"}, {"Integer", int64(7), "7"}, {"Long", int64(7), "7L"},
+		{"Float", float64(1.5), "1.5f"}, {"Double", float64(2.5), "2.5"}, {"Array", "a", "Array(a0,a1)"}, {"TimeSpan", int64(5000000), "TimeSpan(5ms)"},
+		{"DateTime", "t", "DateTime(t)"}, {"Object", "o", "Object(o)"}}
+	base := map[string]argKind{"": {"Integer", int64(1), "1"}, "Boolean": {"Boolean", true, "true"}, "Integer": {"Integer", int64(1), "1"},
+		"String": {"String", lit("abc"), `"abc"`}, "DateTime": {"DateTime", "t0", "DateTime(t0)"}, "Double": {"Double", float64(0.5), "0.5"}}
+	maxCount := 4
+	if c.Tier == "thorough" {
+		maxCount = 9
+	}
+	var wg sync.WaitGroup
+	const chunks = 4
+	for _, manager := range managers {
+		for chunk := 0; chunk < chunks; chunk++ {
+			manager, chunk := manager, chunk
+			wg.Add(1)
+			go func() {
+				defer wg.Done()
+				h := c.newFxHarnessFor(manager)
+				if h.fault != "" {
+					note("inapplicable-arguments", "", h.fault)
+					return
+				}
+				// does the manager convert a value of this kind to the type? (all paths refuse → no)
+				refuses := map[string]string{}
+				refused := func(a argKind, to string) string {
+					k := a.typ + ">" + to
+					if r, ok := refuses[k]; ok {
+						return r
+					}
+					verdict := "no"
+					paths := h.m.explore(12, func() (ret mv, out mOutcome) {
+						defer func() {
+							if r := recover(); r != nil {
+								if ab, ok := r.(mAbort); ok {
+									ret, out = nil, mOutcome{kind: "opaque", why: ab.why}
+									return
+								}
+								panic(r)
+							}
+						}()
+						return callM(c, h.m, h.mgrT, "Convert", h.mgr, h.variant(a.typ, a.payload), h.vtByNm[to])
+					})
+					errs := 0
+					for _, p := range paths {
+						if tp, ok := p.ret.(mTuple); ok && p.out.kind == "ok" && len(tp) == 2 {
+							if _, isNil := tp[1].(mNilT); !isNil {
+								errs++
+							}
+						}
+					}
+					if len(paths) > 0 && errs == len(paths) {
+						verdict = "yes"
+					}
+					refuses[k] = verdict
+					return verdict
+				}
+				for fi, n := range names {
+					if fi%chunks != chunk {
+						continue
+					}
+					for _, cnt := range funcArityOracle[n] {
+						if cnt == 0 || cnt > maxCount {
+							continue
+						}
+						for pos := 0; pos < cnt; pos++ {
+							for _, a := range pool {
+								var texts []string
+								for i := 0; i < cnt; i++ {
+									if i == pos {
+										texts = append(texts, a.text)
+									} else {
+										texts = append(texts, base[funcNeeds(n, i)].text)
+									}
+								}
+								where := fmt.Sprintf("%s(%s) [%s]", n, strings.Join(texts, ", "), manager)
+								if pos == 0 && a.typ == "String" {
+									noteSample("FUNC.model/inapplicable", where)
+								}
+								mustFail := ""
+								if to := funcNeeds(n, pos); to != "" && to != a.typ && refused(a, to) == "yes" {
+									mustFail = to
+								}
+								var held []mv
+								var before []string
+								outs := h.calc(n, false, func() []mv {
+									var ps []mv
+									before = before[:0]
+									for i := 0; i < cnt; i++ {
+										k := a
+										if i != pos {
+											k = base[funcNeeds(n, i)]
+										}
+										v := h.variant(k.typ, k.payload)
+										ps = append(ps, v)
+										before = append(before, h.typeOf(v)+":"+h.payloadOf(v))
+									}
+									held = ps
+									return ps
+								})
+								// whatever the answer, the arguments are the caller's
+								for i, v := range held {
+									if now := h.typeOf(v) + ":" + h.payloadOf(v); i < len(before) && now != before[i] {
+										note("arguments-unchanged", fmt.Sprintf("%s changes its argument %d from %s to %s: arguments belong to the caller (constants and variables of the compiled expression)", where, i+1, before[i], now), "")
+									}
+								}
+								for _, oc := range outs {
+									switch {
+									case oc.kind == "opaque":
+										// a decision on a value of another module (the text of a date …): outside the finite model
+										note("inapplicable-arguments", "", "")
+									case oc.kind == "panic":
+										note("inapplicable-arguments", where+" panics: "+oc.why, "")
+									case oc.kind == "neither":
+										note("inapplicable-arguments", where+" returns a nil result without an error; an argument is applicable (a result) or not (an error)", "")
+									case oc.kind == "both":
+										note("inapplicable-arguments", where+" returns both a result and an error", "")
+									case oc.kind == "value" && mustFail != "":
+										note("inapplicable-arguments", fmt.Sprintf("%s returns %s %s although the operations manager refuses to convert argument %d (%s) to %s, the type the function works on: an inapplicable argument must yield an error, not a substituted value", where, oc.tag, oc.expr, pos+1, a.text, mustFail), "")
+									default:
+										note("inapplicable-arguments", "", "")
+									}
+								}
+							}
+						}
+					}
+				}
+			}()
+		}
+	}
+	wg.Wait()
+}
+
+// ---- Min and Max as mirror images, null arguments in every position ---------------------------------------
+//
+// The statement defines Min and Max "over all arguments": the smallest and the largest under one order,
+// that is, one function under an order and its reverse. It gives a Null argument no role of its own, so
+// there are two readings - a Null takes part (the call answers with one of its arguments) or it is
+// inapplicable (the call answers with an error) - and whichever holds must hold for both: for every list
+// of two to four arguments drawn from Null and the members of a totally ordered set (Integers, Doubles,
+// Strings), Min fails exactly if Max fails; a result is one of the arguments; over Integers and Doubles
+// Max of a list is the negated Min of the negated list; and a list without Null has its largest / smallest
+// member as the answer.
+func (c *Ctx) funcxExtremes(note func(k, bad, undec string)) {
+	type member struct {
+		typ  string
+		val  interface{}
+		text string
+		num  float64
+	}
+	null := member{"Null", nil, "null", 0}
+	pools := map[string][]member{
+		"Integer": {null, {"Integer", int64(3), "3", 3}, {"Integer", int64(-5), "-5", -5}},
+		"Double":  {null, {"Double", float64(2.5), "2.5", 2.5}, {"Double", float64(-0.5), "-0.5", -0.5}},
+		"String":  {null, {"String", lit("a"), `"a"`, 1}, {"String", lit("b"), `"b"`, 2}},
+	}
+	maxLen := map[string]int{"Integer": 4, "Double": 3, "String": 3}
+	if c.Tier == "thorough" {
+		pools["Integer"] = append(pools["Integer"], member{"Integer", int64(7), "7", 7})
+		maxLen = map[string]int{"Integer": 4, "Double": 4, "String": 4}
+	}
+	negate := func(m member) member {
+		switch v := m.val.(type) {
+		case int64:
+			return member{m.typ, -v, fmt.Sprint(-v), -m.num}
+		case float64:
+			return member{m.typ, -v, fmt.Sprint(-v), -m.num}
+		}
+		return m
+	}
+	var wg sync.WaitGroup
+	for _, manager := range managers {
+		for _, typ := range []string{"Integer", "Double", "String"} {
+			manager, typ := manager, typ
+			wg.Add(1)
+			go func() {
+				defer wg.Done()
+				h := c.newFxHarnessFor(manager)
+				if h.fault != "" {
+					note("extremes", "", h.fault)
+					return
+				}
+				pool := pools[typ]
+				run := func(fn string, list []member) (string, string) { // (kind, rendering)
+					outs := h.calc(fn, false, func() []mv {
+						var ps []mv
+						for _, e := range list {
+							ps = append(ps, h.variant(e.typ, e.val))
+						}
+						return ps
+					})
+					if len(outs) != 1 {
+						return "opaque", fmt.Sprintf("%d paths", len(outs))
+					}
+					oc := outs[0]
+					switch oc.kind {
+					case "value":
+						return "value", oc.tag + " " + oc.expr
+					case "error":
+						return "error", "the error " + oc.code
+					}
+					return oc.kind, oc.kind + " " + oc.why
+				}
+				render := func(e member) string {
+					if e.typ == "Null" {
+						return "Null nil"
+					}
+					if s, ok := e.val.(lit); ok {
+						return fmt.Sprintf("String %q", string(s))
+					}
+					return e.typ + " " + fmt.Sprint(e.val)
+				}
+				var lists [][]member
+				var gen func(cur []member)
+				gen = func(cur []member) {
+					if len(cur) >= 2 {
+						lists = append(lists, append([]member{}, cur...))
+					}
+					if len(cur) == maxLen[typ] {
+						return
+					}
+					for _, e := range pool {
+						gen(append(cur, e))
+					}
+				}
+				gen(nil)
+				for _, list := range lists {
+					var texts, mtexts []string
+					var mirror []member
+					nulls := 0
+					for _, e := range list {
+						texts = append(texts, e.text)
+						mirror = append(mirror, negate(e))
+						mtexts = append(mtexts, negate(e).text)
+						if e.typ == "Null" {
+							nulls++
+						}
+					}
+					args := "(" + strings.Join(texts, ", ") + ") [" + manager + "]"
+					if nulls == 1 && len(list) == 3 {
+						noteSample("FUNC.model/extremes", "Min / Max "+args)
+					}
+					kmin, rmin := run("Min", list)
+					kmax, rmax := run("Max", list)
+					bad, undec := "", ""
+					for _, k := range []struct{ fn, kind, r string }{{"Min", kmin, rmin}, {"Max", kmax, rmax}} {
+						switch k.kind {
+						case "opaque":
+							undec = k.fn + args + ": " + k.r
+						case "value":
+							found := false
+							for _, e := range list {
+								found = found || render(e) == k.r
+							}
+							if !found && bad == "" {
+								bad = fmt.Sprintf("%s%s returns %s, which is none of its arguments", k.fn, args, k.r)
+							}
+						case "error":
+						default:
+							if bad == "" {
+								bad = fmt.Sprintf("%s%s: %s", k.fn, args, k.r)
+							}
+						}
+					}
+					if bad == "" && undec == "" && kmin != kmax {
+						bad = fmt.Sprintf("Min%s yields %s and Max%s yields %s: Min and Max are one function under an order and its reverse (\"Min/Max … over all arguments\"); a Null argument takes part in both or is inapplicable to both", args, rmin, args, rmax)
+					}
+					if bad == "" && undec == "" && nulls == 0 && kmin == "value" {
+						lo, hi := list[0], list[0]
+						for _, e := range list {
+							if e.num < lo.num {
+								lo = e
+							}
+							if e.num > hi.num {
+								hi = e
+							}
+						}
+						if rmin != render(lo) || rmax != render(hi) {
+							bad = fmt.Sprintf("Min%s returns %s and Max%s returns %s; the smallest argument is %s, the largest %s", args, rmin, args, rmax, lo.text, hi.text)
+						}
+					}
+					if bad == "" && undec == "" && typ != "String" {
+						// Max(L) = -Min(-L), Min(L) = -Max(-L)
+						margs := "(" + strings.Join(mtexts, ", ") + ") [" + manager + "]"
+						_, mmin := run("Min", mirror)
+						_, mmax := run("Max", mirror)
+						neg := func(r string) string {
+							for i, e := range list {
+								if render(e) == r {
+									return render(mirror[i])
+								}
+							}
+							return r
+						}
+						if kmax == "value" && mmin != neg(rmax) {
+							bad = fmt.Sprintf("Max%s returns %s but Min%s of the negated arguments yields %s; the largest of a list is the negated smallest of the negated list, whatever role a Null argument plays", args, rmax, margs, mmin)
+						}
+						if kmin == "value" && mmax != neg(rmin) && bad == "" {
+							bad = fmt.Sprintf("Min%s returns %s but Max%s of the negated arguments yields %s; the smallest of a list is the negated largest of the negated list, whatever role a Null argument plays", args, rmin, margs, mmax)
+						}
+					}
+					note("extremes", bad, undec)
+				}
+			}()
+		}
+	}
+	wg.Wait()
 }
 
 func init() {
 	register(&Rule{ID: "FUNC.model", Floor: 5,
-		Doc: "the default function table evaluated abstractly (NewDefaultFunctionCollection, FindByName in three letter cases, Calculate with the type-unsafe operations): the 37 names and nothing else; per function and argument count 0..9 a result exactly for the statement's counts, never nil-without-error or both; host functions and constants as symbolic expressions of the converted argument; Min/Max/Sum/If/Choose/Contains/Abs/Empty/Null/Array/TimeSpan/Date on constants against their meaning",
+		Doc: "the default function table evaluated abstractly (NewDefaultFunctionCollection, FindByName in three letter cases, Calculate with the type-unsafe operations): the 37 names and nothing else; per function and argument count 0..9 a result exactly for the statement's counts, never nil-without-error or both; host functions and constants as symbolic expressions of the converted argument; Min/Max/Sum/If/Choose/Contains/Abs/Empty/Null/Array/TimeSpan/Date on constants against their meaning; every function with an argument of every variant type in every position under both managers (result xor error; what the manager refuses to convert is an error); Min and Max as mirror images over lists with Null arguments in every position",
 		Run: func(c *Ctx) []*Obligation {
 			o := newObl("FUNC.model")
 			res := c.funcxRun()
 			pos := c.Pos(c.MustFunc(pkgFunctions, "", "NewDefaultFunctionCollection").Pos())
-			for _, k := range []string{"table", "arity", "meaning", "semantics", "arguments-unchanged", "table-unchanged"} {
+			for _, k := range []string{"table", "arity", "meaning", "semantics", "arguments-unchanged", "table-unchanged", "inapplicable-arguments", "extremes"} {
 				v := res[k]
 				if v == nil {
 					v = &simpleVerdict{}
